@@ -162,6 +162,7 @@ func (p c20) registryRace(c *core.Ctx) {
 	}
 	got := make([][]*component_definition.Meta, nG)
 	var wg sync.WaitGroup
+	var unfinished atomic.Int32
 	start := make(chan struct{})
 	for g := 0; g < nG; g++ {
 		got[g] = make([]*component_definition.Meta, nNames)
@@ -172,6 +173,10 @@ func (p c20) registryRace(c *core.Ctx) {
 			for i := 0; i < nNames; i++ {
 				k := (i + g) % nNames
 				got[g][k] = reg.GetMetaOrRegister(fmt.Sprintf("shared-%d", k), comps[k])
+				// whoever is handed the definition finds it complete: it carries the name it was asked for under
+				if nm := got[g][k].Name(); nm != fmt.Sprintf("shared-%d", k) {
+					unfinished.Add(1)
+				}
 				if g%2 == 0 {
 					runtime.Gosched()
 				}
@@ -181,6 +186,10 @@ func (p c20) registryRace(c *core.Ctx) {
 	close(start)
 	wg.Wait()
 	c.Count("registry_get_or_register_histories", 1)
+	if n := unfinished.Load(); n > 0 {
+		c.Fail("", fmt.Sprintf("definition registry: %d goroutines asked for fresh names at once; %d time(s) a caller was handed a definition that did not (yet) carry the name it was registered under", nG, n), map[string]any{"goroutines": nG, "names": nNames})
+		return
+	}
 	for k := 0; k < nNames; k++ {
 		kept := reg.GetMetaByName(fmt.Sprintf("shared-%d", k))
 		for g := 0; g < nG; g++ {
@@ -427,6 +436,10 @@ type recOp struct {
 }
 
 func (p c20) Run(c *core.Ctx) {
+	if c.Index%40 == 17 {
+		p.registryRace(c) // (also part of the race-build workload)
+		return
+	}
 	target := c.Index % 3 // 0 sync2.Map, 1 ConcurrentSets (string), 2 generic concurrent set
 	nG := 2 + c.Rng.Intn(7)
 	nOps := 4 + c.Rng.Intn(7)
